@@ -15,6 +15,20 @@ func GenCfgFloat(t *rapid.T, kind string) Cfg {
 	return c
 }
 
+// GenCfgElem draws a configuration of another element family ("any", "uint8",
+// "int13"); the comparators of these families are the natural and the reversed order.
+func GenCfgElem(t *rapid.T, kind, elem string) Cfg {
+	c := GenCfg(t, kind)
+	c.Elem = elem
+	switch c.Cmp {
+	case dom.Mag:
+		c.Cmp = dom.Nat
+	case "revmag":
+		c.Cmp = dom.Rev
+	}
+	return c
+}
+
 func GenCfg(t *rapid.T, kind string) Cfg {
 	c := Cfg{Kind: kind}
 	switch kind {
